@@ -110,6 +110,33 @@ def _check_submodule_path(path: bytes, validator: Callable[[bytes], bool]) -> No
         raise Error(f"refusing submodule with unsafe path: {path!r}")
 
 
+def _check_submodule_worktree_path(repo_path: str, path: bytes) -> None:
+    """Refuse a submodule path that resolves through a symlink in the work tree.
+
+    ``path`` has passed ``_check_submodule_path``, but the work tree may hold a
+    symlink at one of its leading directories or at the path itself (left by an
+    earlier checkout, with HEAD since moved on). Creating the submodule's work
+    tree there would write its ``.git`` file and its whole checkout into the
+    link's target, possibly outside the work tree or inside ``.git``. git
+    refuses the same way ("expected submodule path ... not to be a symbolic
+    link", CVE-2024-32002).
+
+    Raises:
+      Error: If a leading component of the path, or the path itself, is a
+        symlink.
+    """
+    from ..index import InvalidPathError, verify_leading_dirs
+    from . import Error
+
+    repo_path_bytes = os.fsencode(repo_path)
+    try:
+        verify_leading_dirs(path, [], repo_path_bytes)
+    except InvalidPathError as e:
+        raise Error(f"refusing submodule path below a symlink: {path!r}") from e
+    if os.path.islink(os.path.join(repo_path_bytes, path)):
+        raise Error(f"refusing submodule path that is a symlink: {path!r}")
+
+
 def submodule_list(repo: "RepoPath") -> Iterator[tuple[str, str]]:
     """List submodules.
 
@@ -207,6 +234,9 @@ def submodule_update(
             except KeyError:
                 # URL not in config, skip this submodule
                 continue
+
+            # Never create or update a submodule work tree through a symlink.
+            _check_submodule_worktree_path(r.path, path)
 
             # Get or create the submodule repository paths
             submodule_path = os.path.join(r.path, path_str)
